@@ -393,6 +393,34 @@ pub fn check(tier: Tier, threads: usize) -> CheckOutcome {
         }
     }
     crate::watchdog::idle();
+    // a complete well-formed request is answered however it arrives: every corpus frame on its own,
+    // delivered in two pieces at every cut (nothing behind it that could complete a short buffer)
+    {
+        crate::watchdog::working_on("C10 single requests delivered in two pieces".into());
+        let frames = crate::corpus::well_formed(b"k");
+        for f in frames.iter().filter(|f| f.req.body_length() <= LIMIT) {
+            crate::watchdog::beat();
+            let b = f.bytes();
+            let (whole, _) = crate::check_c09::run_decoder(&[&b]);
+            for cut in 1..b.len() {
+                let (two, residue) = crate::check_c09::run_decoder(&[&b[..cut], &b[cut..]]);
+                if two.handled != whole.handled || two.err != whole.err || two.out != whole.out {
+                    failing += 1;
+                    let sig = format!("request-not-taken|{}", if cut <= 24 { "cut-in-header" } else { "cut-in-body" });
+                    found.entry(sig.clone()).or_insert(Violation {
+                        signature: sig,
+                        what: format!(
+                            "{} ({} body bytes) delivered as {} + {} bytes: {} request(s) handled, error={}, {} bytes left waiting in the buffer - delivered whole: {} handled",
+                            f.name, b.len() - 24, cut, b.len() - cut, two.handled, two.err, residue, whole.handled
+                        ),
+                        replay: json!({"engine": "c10-two-pieces", "frame": f.name, "cut": cut}),
+                    });
+                    break;
+                }
+            }
+        }
+        crate::watchdog::idle();
+    }
     let mut split_cases: Vec<(u8, u32)> = vec![];
     for opc in [op::SET, op::GET, op::INCR, op::NOOP, op::TOUCH, op::APPENDQ, op::QUIT] {
         for l in [LIMIT + 150, 2 * LIMIT, LIMIT + 70_000, LIMIT + 200_000] {
